@@ -248,10 +248,14 @@ _AGREE = {}
 
 
 def _agrees(shape, items):
-    key = (tuple(shape), repr(items))
+    """whether numpy's semantics and per-axis indexing coincide depends only on the *types* of the items
+    (integer / slice / list) and the number of axes: decided once per type pattern on a generic shape
+    (all axes of length 3, list [2, 0]), which also excludes coincidences on degenerate shapes"""
+    key = (len(shape), tuple("i" if isinstance(it, int) else it[0] for it in items))
     v = _AGREE.get(key)
     if v is None:
-        v = _AGREE[key] = R.numpy_agrees(shape, items)
+        generic = [0 if k == "i" else (["s", None, None, None] if k == "s" else ["l", [2, 0]]) for k in key[1]]
+        v = _AGREE[key] = R.numpy_agrees((3,) * len(shape), generic)
     return v
 
 
@@ -290,6 +294,8 @@ def menu(kind, shape, ext, grow):
         if multi:
             evs.append(["sqbad", multi[0]])
         evs.append(["copy"])
+    if kind == "C":
+        evs.append(["reterm"])
     if kind in "CTSPA":
         for codes in itertools.product((0, 1, 2), repeat=d):
             evs.append(["nway", list(codes), "d"])
@@ -480,6 +486,12 @@ def _apply_event(st, ev, seed, need_child):
             res, want = obj.copy(), model
             if any(np.shares_memory(a, b) for a in leaves(res) for b in leaves(obj)):
                 return [(tag + ":alias", "copy() shares memory with the original")], None, "alias"
+        elif fam == "reterm":
+            if obj.R == 0:
+                return [], None, "rank0"        # from_terms needs at least one term
+            res, want = t.CanonicalTensor.from_terms(obj.terms()), model
+            if res.R != obj.R:
+                return [(tag + ":rank", "from_terms(X.terms()) has rank %d, X has %d" % (res.R, obj.R))], None, "rank"
         elif fam == "nway":
             dense, real, mwatch = _mats(seed, shape, ev[1], ev[2])
             tag = "nway:%s:%s" % (kind, {"d": "dense", "s": "sparse", "l": "linop"}[ev[2]])
